@@ -72,6 +72,9 @@ REAL = [
     [["RETURN", _c("categorize", _q("win"), ["l", [["l", [["l", [_s("Work")]], ["d", [["type", _s("regex")], ["regex", _s("a0|a2")]]]]]]])]],
     [["RETURN", _c("tag", _q("win"), ["l", [["l", [_s("zero"), ["d", [["type", _s("regex")], ["regex", _s("a0")]]]]]]])]],
     [["RETURN", ["d", [["n", _c("nop")], ["events", _c("limit_events", _q("win"), ["i", 1])], ["k", ["l", [["v", "NAME"], ["v", "true"]]]]]]]],
+    # the key argument of simplify_window_titles names the field that is simplified
+    [["RETURN", _c("simplify_window_titles", _q("win"), _s("app"))]],
+    [["k", _s("app")], ["RETURN", ["l", [_c("simplify_window_titles", _q("win"), ["v", "k"]), _c("simplify_window_titles", _q("win"), _s("title"))]]]],
     # the same filter string with different hostnames, in one program and across programs of the same process
     [["a", _c("find_bucket", _s("win"), _s("host1"))], ["b", _c("find_bucket", _s("win"), _s("host2"))], ["RETURN", ["l", [["v", "a"], ["v", "b"]]]]],
     [["a", _c("find_bucket", _s("win"), _s("host2"))], ["b", _c("find_bucket", _s("win"))], ["RETURN", ["l", [["v", "b"], ["v", "a"], _c("query_bucket", ["v", "a"])]]]],
